@@ -51,6 +51,49 @@ def aux_name_clash(text, desc):
     return False
 
 
+def evidence_head_fact(text, desc):
+    """Known finding: with propagate_evidence the node of an evidence atom that is the head of a
+    multi-head annotated disjunction is replaced by TRUE, and to_prolog() then prints it as a plain
+    fact next to the (unchanged) AD line, so the other heads are no longer excluded by it.
+    Recognised on the exported text: a fact line 'H.' whose atom H is also a head of an AD line."""
+    if not desc.get("opts", {}).get("propagate_evidence"):
+        return False
+    try:
+        exp = export(text, desc.get("break_cycles", False), desc.get("opts", {}))
+    except Exception:
+        return False
+    lines = [l.strip() for l in exp.split("\n") if l.strip()]
+    facts = set(l[:-1] for l in lines if l.endswith(".") and ":-" not in l and "::" not in l
+                and not l.startswith(("query(", "evidence(")))
+    culprits = set()
+    for l in lines:
+        head = l.split(":-")[0]
+        if "::" in head and ";" in head:
+            for h in head.rstrip(". ").split(";"):
+                if h.split("::", 1)[1].strip() in facts:
+                    culprits.add(h.split("::", 1)[1].strip())
+    if not culprits:
+        return False
+    # causal test: with exactly those fact lines deleted the export agrees with the original again
+    repaired = "\n".join(l for l in lines if l[:-1] not in culprits) + "\n"
+    try:
+        a = get_evaluatable("ddnnf").create_from(PrologString(text)).evaluate()
+        b = get_evaluatable("ddnnf").create_from(PrologString(repaired)).evaluate()
+    except Exception:
+        return False
+    a = dict((str(k), v) for k, v in a.items())
+    b = dict((str(k), v) for k, v in b.items())
+    return set(a) == set(b) and all(abs(a[k] - b[k]) < 1e-9 for k in a)
+
+
+def classify(text, key, desc):
+    if aux_name_clash(text, desc):
+        return "to_prolog:aux-name-clash"
+    if evidence_head_fact(text, desc):
+        return "to_prolog:propagate-evidence:ad-head-printed-as-fact"
+    return None
+
+
 def make_cfg(desc):
     def cfg(text, sr):
         if desc.get("export"):
@@ -103,8 +146,7 @@ def work(item):
               {"export": True, "break_cycles": False, "opts": {"propagate_evidence": True}}):
         try:
             diffcheck.diff_check(text, make_cfg({}), make_cfg(d), {}, d, groups=groups, name=name, st=st,
-                                 classify=lambda t, k, d=d: "to_prolog:aux-name-clash"
-                                 if aux_name_clash(t, d) else None)
+                                 classify=lambda t, k, d=d: classify(t, k, d))
         except Exception:
             raise
     if st["samples"]:
